@@ -281,7 +281,10 @@ func (s *Stream) Close() error {
 		atomic.StoreUint32(&s.callbackCloseState, uint32(callbackWaitExit))
 	}
 	if atomic.LoadUint32(&s.callbackInProcess) == 1 {
-		atomic.CompareAndSwapUint32(&s.state, uint32(streamOpened), uint32(streamLocalHalfClosed))
+		if atomic.CompareAndSwapUint32(&s.state, uint32(streamOpened), uint32(streamLocalHalfClosed)) {
+			// wake a reader parked inside the running callback: it finds the stream closed and returns
+			s.safeCloseNotify()
+		}
 		return nil
 	}
 
